@@ -139,11 +139,12 @@ impl UacAuthenticator for DigestAuthenticator {
         let response = match qop_response.qop {
             QopOption::Auth | QopOption::AuthInt => (qop_entry.hash)(
                 format!(
-                    "{}:{}:{:08X}:{}:auth:{}",
+                    "{}:{}:{:08X}:{}:{}:{}",
                     qop_entry.ha1,
                     digest.nonce,
                     qop_response.nc,
                     qop_response.cnonce,
+                    qop_response.qop,
                     qop_entry.ha2
                 )
                 .as_bytes(),
